@@ -44,7 +44,7 @@ func (g *c05gen) cmd(ci int, profile string) []B {
 	k := pick(r, g.keys)
 	fam := g.fam[k]
 	if profile == "mixed" && r.Bool(0.12) {
-		fam = pick(r, []string{"reg", "ctr", "list", "set", "hash"})
+		fam = pick(r, []string{"reg", "ctr", "list", "set", "hash", "zset"})
 	}
 	if r.Bool(0.15) {
 		// KEYS is not a single-key command and is not required to be an atomic
@@ -66,7 +66,7 @@ func (g *c05gen) cmd(ci int, profile string) []B {
 	}
 	switch fam {
 	case "reg":
-		switch r.Intn(7) {
+		switch r.Intn(10) {
 		case 0, 1:
 			return bs("set", k, g.val(ci))
 		case 2, 3:
@@ -75,22 +75,32 @@ func (g *c05gen) cmd(ci int, profile string) []B {
 			return bs("setnx", k, g.val(ci))
 		case 5:
 			return bs("append", k, g.val(ci))
+		case 6:
+			return bs("getrange", k, "0", "-1")
+		case 7:
+			return bs("setrange", k, itoa(r.Intn(4)), g.val(ci))
+		case 8:
+			return bs("set", k, g.val(ci), pick(r, []string{"nx", "xx", "get"}))
 		default:
 			return bs("strlen", k)
 		}
 	case "ctr":
-		switch r.Intn(6) {
+		switch r.Intn(8) {
 		case 0, 1, 2:
 			return bs("incr", k)
 		case 3:
 			return bs("incrby", k, fmt.Sprint(1+r.Intn(5)))
 		case 4:
 			return bs("decr", k)
+		case 5:
+			return bs("decrby", k, fmt.Sprint(1+r.Intn(3)))
+		case 6:
+			return bs("incrbyfloat", k, pick(r, []string{"0.5", "2", "-1.5"}))
 		default:
 			return bs("get", k)
 		}
 	case "list":
-		switch r.Intn(8) {
+		switch r.Intn(14) {
 		case 0, 1:
 			return bs("rpush", k, g.val(ci))
 		case 2:
@@ -101,8 +111,36 @@ func (g *c05gen) cmd(ci int, profile string) []B {
 			return bs("rpop", k)
 		case 6:
 			return bs("llen", k)
+		case 7:
+			return bs(pick(r, []string{"lpushx", "rpushx"}), k, g.val(ci))
+		case 8:
+			return bs("lindex", k, pick(r, []string{"0", "-1", "1"}))
+		case 9:
+			return bs("lset", k, pick(r, []string{"0", "-1"}), g.val(ci))
+		case 10:
+			return bs("ltrim", k, pick(r, []string{"0", "1"}), pick(r, []string{"-1", "1", "0"}))
+		case 11:
+			return bs("lrem", k, "0", "i1")
+		case 12:
+			return bs(pick(r, []string{"lpop", "rpop"}), k, "2")
 		default:
 			return bs("lrange", k, "0", "100")
+		}
+	case "zset":
+		m := fmt.Sprintf("z%d", r.Intn(4))
+		switch r.Intn(8) {
+		case 0, 1, 2:
+			return bs("zadd", k, itoa(r.Intn(5)), m)
+		case 3:
+			return bs("zadd", k, pick(r, []string{"nx", "xx", "gt", "ch"}), itoa(r.Intn(5)), m)
+		case 4:
+			return bs("zrem", k, m)
+		case 5:
+			return bs("zrank", k, m)
+		case 6:
+			return bs("zadd", k, "incr", "1", m)
+		default:
+			return bs("zrange", k, "0", "-1", "withscores")
 		}
 	case "set":
 		m := fmt.Sprintf("m%d", r.Intn(3))
@@ -120,7 +158,14 @@ func (g *c05gen) cmd(ci int, profile string) []B {
 		}
 	default: // hash
 		f := fmt.Sprintf("f%d", r.Intn(2))
-		switch r.Intn(7) {
+		switch r.Intn(10) {
+		case 7, 8:
+			return bs("hsetnx", k, f, g.val(ci))
+		case 9:
+			if r.Bool(0.3) {
+				return bs("hstrlen", k, f)
+			}
+			return bs(pick(r, []string{"hgetall", "hkeys", "hvals"}), k)
 		case 0, 1:
 			return bs("hset", k, f, g.val(ci))
 		case 2:
@@ -150,6 +195,8 @@ func auditSteps(keys []string, fam map[string]string) []Step {
 			steps = append(steps, Step{Kind: "cmd", Args: bs("smembers", k)}, Step{Kind: "cmd", Args: bs("scard", k)})
 		case "hash":
 			steps = append(steps, Step{Kind: "cmd", Args: bs("hgetall", k)}, Step{Kind: "cmd", Args: bs("hlen", k)})
+		case "zset":
+			steps = append(steps, Step{Kind: "cmd", Args: bs("zrange", k, "0", "-1", "withscores")})
 		}
 	}
 	steps = append(steps, Step{Kind: "cmd", Args: bs("keys", "*")})
@@ -163,14 +210,14 @@ func genC05(r *core.Rand, env *core.Env, run int) *Scenario {
 	sc := &Scenario{Kind: "C05"}
 	sc.Knobs = Knobs{ShardNum: pick(r, []int{1, 1, 2, 3, 8, 1024}), Databases: 1, YieldRMW: r.Bool(0.8), MaxSteps: 30000,
 		Strategy: pick(r, []int{0, 0, 1, 1, 2}), PreemptPct: pick(r, []int{5, 15, 30, 50})}
-	profile := pick(r, []string{"reg", "ctr", "list", "set", "hash", "mixed", "mixed"})
+	profile := pick(r, []string{"reg", "ctr", "list", "set", "hash", "zset", "mixed", "mixed"})
 	nk := 1 + r.Intn(3)
 	g := &c05gen{r: r, fam: map[string]string{}}
 	for i := 0; i < nk; i++ {
 		k := fmt.Sprintf("k%d", i)
 		g.keys = append(g.keys, k)
 		if profile == "mixed" {
-			g.fam[k] = pick(r, []string{"reg", "ctr", "list", "set", "hash"})
+			g.fam[k] = pick(r, []string{"reg", "ctr", "list", "set", "hash", "zset"})
 		} else {
 			g.fam[k] = profile
 		}
@@ -192,6 +239,8 @@ func genC05(r *core.Rand, env *core.Env, run int) *Scenario {
 				sc.Knobs.Preload = append(sc.Knobs.Preload, bs("sadd", k, "m0", "mx"))
 			case "hash":
 				sc.Knobs.Preload = append(sc.Knobs.Preload, bs("hset", k, "f0", "init"))
+			case "zset":
+				sc.Knobs.Preload = append(sc.Knobs.Preload, bs("zadd", k, "1", "z0", "2", "zx"))
 			}
 		}
 	}
